@@ -3,6 +3,7 @@
 (* after every step the projection of the real file must equal the model's.                                       *)
 (* Events: [e |-> "reset", layout] | [e |-> "write", s, size, ok, read, present, cai_n, cai_ok, outside, media]     *)
 (*         | [e |-> "remove", ok, read, present, remove_equal, usable, media]                                      *)
+(*         | [e |-> "fwrite", delta, ok, read]                                                                     *)
 (* foreign: "yes" | "no" | "na" -- the other application's structure added to the asset is still there exactly once. *)
 (* media / remove_equal are "yes" | "no" | "unknown" (no walker for the format).                                   *)
 EXTENDS Naturals, Sequences, FiniteSets, TLC, Json, IOUtils
@@ -36,7 +37,14 @@ TRemove ==
               \cup (IF Ev.remove_equal = "no" THEN {"C09:remove-not-idempotent"} ELSE {})
               \cup (IF Ev.foreign = "no" THEN {"C09:foreign-data-lost"} ELSE {})
               \cup (IF Ev.media = "no" THEN {"C09:media-changed"} ELSE {}) )
-TNext == l <= Len(Rec) /\ l' = l + 1 /\ (TReset \/ TWrite \/ TRemove)
+\* a probe: a store of the current store's size + delta is written onto a copy of the current file through the file entry
+\* point (patch in place first, rewrite otherwise) and read back; the probe leaves the model state alone
+TFileWrite ==
+  /\ Ev.e = "fwrite"
+  /\ UNCHANGED <<hasStore, last, lastSize>>
+  /\ Flag( (IF ~Ev.ok THEN {"C07:file-write-failed"} ELSE {})
+       \cup (IF Ev.ok /\ Ev.read # "equal" THEN {"C07:file-write-read-differs"} ELSE {}) )
+TNext == l <= Len(Rec) /\ l' = l + 1 /\ (TReset \/ TWrite \/ TRemove \/ TFileWrite)
 TSpec == TInit /\ [][TNext]_tvars
 Accepted == LET d == TLCGet("stats").diameter IN PrintT(<<"TRACE_MATCHED", d - 1>>) /\ d - 1 = Len(Rec)
 AtEnd == l = Len(Rec) + 1 => PrintT(<<"VERDICT", ToJson([bad |-> bad])>>)
